@@ -649,9 +649,9 @@ class PacketTransmitter(Elaboratable):
             # but only after the receiver transmits LRTY.
             with m.State("WAIT_FOR_RETRY"):
                 m.d.comb += packet_tx.header.delayed.eq(1)
-                m.d.comb += packet_tx.generate.eq(~self.lrty_pending)
+                m.d.comb += packet_tx.generate.eq(~self.lrty_pending & self.enable)
 
-                with m.If(~self.lrty_pending):
+                with m.If(~self.lrty_pending & self.enable):
                     m.d.ss += retransmitting.eq(1)
                 with m.If(self.retry_required & (retransmitting | ~self.lrty_pending)):
                     m.d.ss += retry_restarted.eq(1)
@@ -671,6 +671,12 @@ class PacketTransmitter(Elaboratable):
                         with m.If(packets_to_send == 1):
                             m.d.ss += retry_pending.eq(0)
                             m.next = "DISPATCH_PACKET"
+
+                # If the link goes down while we're retransmitting, everything we had queued is dropped (see
+                # "Reset Handling", below). A packet that's already on the wire still completes; but we must not
+                # keep retransmitting from the cleared buffers -- neither now, nor once the link is back up.
+                with m.If(~self.enable):
+                    m.next = "DISPATCH_PACKET"
 
 
         #
